@@ -2,6 +2,7 @@ package gvc
 
 import (
 	"os"
+	"runtime/debug"
 	"fmt"
 	"go/types"
 	"strings"
@@ -76,7 +77,8 @@ func (u *Unit) regionOf(st *State, blk *Term) *Region {
 	}
 	// contents: whatever region the block coincides with, else unknown memory
 	c := u.newArr("Cu")
-	r := &Region{Blk: blk}
+	r := &Region{Blk: blk, Base: c}
+	siblings := false
 	type alt struct {
 		cond *Term
 		c    *Term
@@ -87,18 +89,27 @@ func (u *Unit) regionOf(st *State, blk *Term) *Region {
 		// a slice returned by a contract call: allocated by the callee (fresh)
 		// or pointing into a region that existed before the call
 		if u.provable(Or(Eq(blk, IntLit(0)), Ge(blk, bm.base))) {
-			r.C = c
+			// allocated by the callee: it can only coincide with other blocks
+			// returned by the same call
+			var sib []string
+			for _, k := range st.order {
+				if om, ok := u.blkInfo[k]; ok && om.base.S == bm.base.S && k != blk.S {
+					sib = append(sib, k)
+				}
+			}
 			r.Fresh = u.provable(Or(Eq(blk, IntLit(0)), Ge(blk, u.alloc0)))
-			u.addRegion(st, r)
-			return r
+			cands = sib
+			siblings = true
+			goto build
 		}
 		if bm.epoch < len(cands) {
 			cands = cands[:bm.epoch]
 		}
 	}
+build:
 	for _, k := range cands {
 		q := st.regions[k]
-		if q.Virt {
+		if q == nil || q.Virt {
 			continue
 		}
 		cond := Eq(blk, q.Blk)
@@ -114,13 +125,20 @@ func (u *Unit) regionOf(st *State, blk *Term) *Region {
 				continue
 			}
 		}
-		alts = append(alts, alt{cond, q.C})
+		if siblings && q.Base != nil && !q.Written {
+			alts = append(alts, alt{cond, q.Base})
+		} else {
+			alts = append(alts, alt{cond, q.C})
+		}
 		st.edges[blk.S] = append(st.edges[blk.S], Edge{Other: k, Cond: cond})
 		st.edges[k] = append(st.edges[k], Edge{Other: blk.S, Cond: cond})
 	}
 	if os.Getenv("GVC_DEBUG_REGIONS") != "" {
 		_, tracked := u.blkInfo[blk.S]
 		fmt.Fprintf(os.Stderr, "regionOf(%s): tracked=%v alts=%d specMode=%d\n", blk.S, tracked, len(alts), u.specMode)
+		if tracked && len(alts) > 0 && os.Getenv("GVC_DEBUG_REGIONS") == "2" {
+			fmt.Fprintf(os.Stderr, "%s\n", debug.Stack())
+		}
 	}
 	if len(alts) == 0 {
 		r.C = c
@@ -144,6 +162,7 @@ func (u *Unit) setContents(st *State, key string, c *Term) {
 	old := st.regions[key]
 	n := *old
 	n.C = c
+	n.Written = true
 	st.regions[key] = &n
 }
 
